@@ -56,17 +56,17 @@ CLAIMS.update({
    technique="Lean 4 proof over the report model + cross-product judge on the real binary and the library entry point",
    ref="DESIGN.md §5 C07"),
  "C12": dict(
-   text="In the model a batch is a map of runFile over the pairs and runFile starts from St.init where the Rust loops call root_scope; theorems: leftover state is not an input, every pair of a batch equals that pair alone, permuting files permutes results, the batch fails iff a pair fails (with C06); and, proved through the whole mutual evaluator, evaluating a rules file from ANY state leaves the scope stack exactly as it found it (C12_scopes_restored, C12_init_stack). The weight is on the tie: batches of 1..3 rules files sharing variable, rule and key-capture names x 1..4 documents on the real binary, structured and plain, every order of -r/-d, directories with -a and -m (controlled mtimes), --payload lists, each compared with the union of the pairs validated alone; `test` files with n cases vs each case alone (plain, json, yaml, junit; both orders; rules that refer to other rules).",
+   text="In the model a batch is a map of runFile over the pairs and runFile starts from St.init where the Rust loops call root_scope; theorems: leftover state is not an input, every pair of a batch equals that pair alone, permuting files permutes results, the batch fails iff a pair fails (with C06); and, proved through the whole mutual evaluator, evaluating a rules file from ANY state leaves the scope stack exactly as it found it (C12_scopes_restored, C12_init_stack). The weight is on the tie: batches of 1..3 rules files sharing variable, rule and key-capture names x 1..4 documents on the real binary, structured and plain, every order of -r/-d, directories with -a and -m (controlled mtimes), symbolic links, --payload lists, each compared with the union of the pairs validated alone; SARIF and JUnit per data file and per rules file, input parameters with several data files, batch vs alone; `test` files with n cases vs each case alone (plain, json, yaml, junit; both orders; rules that refer to other rules).",
    note="Partial: the isolation theorems hold by construction of the model; what ties them to the code is the batch-vs-singleton comparison (walkdir ordering, file system and mtimes are runtime).",
    technique="Lean 4 theorems on the batch model + batch-vs-singleton judge on the real binary",
    ref="DESIGN.md §5 C12"),
  "C16": dict(
-   text="Lean model of get_by_rules / get_status_result / the classification of a test case, with theorems for any number of definitions of a rule: an expectation is met iff some definition has the expected non-SKIP status, or SKIP is expected and all are SKIP; rules without an expectation are never failures; the statuses grouped under a name are exactly the top-level rule records of the evaluator's tree with that name, in order. The real `test` command (plain, json, yaml, junit; single file and --dir) is compared with the statuses `validate` assigns to the same rules on the same inputs, with the Lean classification, and across formats.",
+   text="Lean model of get_by_rules / get_status_result / the classification of a test case, with theorems for any number of definitions of a rule: an expectation is met iff some definition has the expected non-SKIP status, or SKIP is expected and all are SKIP; rules without an expectation are never failures; the statuses grouped under a name are exactly the top-level rule records of the evaluator's tree with that name, in order. The real `test` command (plain, json, yaml, junit; single file and --dir) is compared with the statuses `validate` assigns to the same rules on the same inputs, with the Lean classification, and across formats; the same cases split over two test files (both orders, -t dir and --dir) must give the same exit code.",
    note="Trusted: test inputs are loaded through serde_yaml, validate inputs through the library loader; agreement on JSON-compatible scalars is C11.",
    technique="Lean 4 proof of the expectation-matching function + test-vs-validate and cross-format judge on the real binary",
    ref="DESIGN.md §5 C16"),
  "C17": dict(
-   text="Lean mirror of PathAwareValue::merge and of the parameter-file fold with theorems for all documents: merge succeeds iff the top-level key sets are disjoint, otherwise it is the MultipleValues error (never a silent choice); on success the result is the old entries followed by the incoming ones (nothing lost, nothing overridden, keys and values aligned); non-structs are an error. Tied by splitting documents at random into 1..3 parameter files + data (disjoint and overlapping), plain and structured, on the real binary: verdicts equal those on the pre-merged document, for every order of the parameter files, and equal the Lean merge+evaluator model; conflicts must fail.",
+   text="Lean mirror of PathAwareValue::merge and of the parameter-file fold with theorems for all documents: merge succeeds iff the top-level key sets are disjoint, otherwise it is the MultipleValues error (never a silent choice); on success the result is the old entries followed by the incoming ones (nothing lost, nothing overridden, keys and values aligned); non-structs are an error. Tied by splitting documents at random into 1..3 parameter files + data (disjoint and overlapping), plain and structured, on the real binary: verdicts equal those on the pre-merged document, for every order of the parameter files, and equal the Lean merge+evaluator model; conflicts (also with equal values) must fail; parameter files reached through symbolic links and parameter files with scalars only some YAML readers type (True, 0x1F90, ~, yes) must mean what the same text means inside the document.",
    note="A genuine defect was repaired earlier (81fec31: structured mode panicked on a conflict). Order independence is judged, not proved (top-level key order only matters to programs that enumerate the root).",
    technique="Lean 4 proof of the merge function + split/pre-merged/reordered judge on the real binary + model correspondence",
    ref="DESIGN.md §5 C17"),
@@ -93,7 +93,7 @@ CLAIMS.update({
    technique="Lean 4 proof over the rulegen model + rulegen->parse->validate->mutate judge on the real binary",
    ref="DESIGN.md §5 C19"),
  "C05": dict(
-   text="Every Lean function is deterministic, so the content is that every SOURCE of non-determinism is a parameter or audited: (1) a GENERATED obligation - every iteration over a std HashMap/HashSet that tools/extract.py finds in the current source is in the reviewed baseline with the reason its order cannot reach an output (a new site breaks the theorem); (2) every aggregation is invariant under permutation of what such a container yields; (3) the clock is the Env field `now`, read by no function but now(); (4) evaluation starts from St.init, nothing evaluated earlier is an input. The runtime part is judged by repetition: every (scenario, mode) of validate / test / parse-tree / rulegen in 5 fresh processes of the real binary under 5 environments and 5 times inside one long-lived process with other work in between - equal exit codes, byte-identical structured output (JUnit modulo time=), console output equal as a multiset of lines.",
+   text="Every Lean function is deterministic, so the content is that every SOURCE of non-determinism is a parameter or audited: (1) a GENERATED obligation - every iteration over a std HashMap/HashSet that tools/extract.py finds in the current source is in the reviewed baseline with the reason its order cannot reach an output (a new site breaks the theorem); (2) every aggregation is invariant under permutation of what such a container yields; (3) the clock is the Env field `now`, read by no function but now(); (4) evaluation starts from St.init, nothing evaluated earlier is an input. The runtime part is judged by repetition: every (scenario, mode) of validate / test / parse-tree / rulegen in 5 fresh processes of the real binary under 5 environments and 5 times inside one long-lived process with other work in between - equal exit codes, byte-identical structured output (JUnit modulo time=), console output equal as a multiset of lines; stderr likewise (error paths included); the data files of a run given in the opposite order must report the same per file; time stamps of every shape through parse_epoch under several time zones; multi-line templates with several failing resources (source excerpts of the console reporter).",
    note="Partial: actual hash seeds, process environment and clock are runtime; repetition can only sample them. The site scan is token-level (tools/extract.py).",
    technique="Lean 4 proof (generated hash-site coverage obligation, permutation invariance, clock independence) + repeat-run judge (fresh processes and in-process)",
    ref="DESIGN.md §5 C05"),
